@@ -37,10 +37,13 @@ RULE = (
     "at the end the incrementally written file is compared with one append=False export to a second file. "
     "design_space: 1-4 variables (multi-character names, sizes 1-3, float/integer, finite/infinite/equal bounds on several "
     "scales, missing current values) through HDF5 (root/nested node, fresh file or appended next to another node; exact), CSV "
-    "(relative 1e-15) and to_file/from_file with .h5/.hdf5/.csv/.txt suffixes, compared field by field with the drawn spec. "
+    "(relative 1e-15) and to_file/from_file with .h5/.hdf5/.csv/.txt suffixes, optionally after to_complex() (the real part of the current "
+    "value is what must come back), compared field by field with the drawn spec. "
     "problem: design space, objective (min/max), 0-2 constraints (eq/ineq, positive, offset, dim 1-2) as plain MDOFunctions or as "
     "MDOLinearFunctions with dense/sparse coefficients (saved is_linear True or False), 0-1 observable, "
-    "tolerances, differentiation method/step, hand-filled database, optional solution, root/nested node, compared attribute by "
+    "tolerances, differentiation method/step, hand-filled database, optional solution, root/nested node; written once or with "
+    "append=True after the database, the design space, both or the problem itself were written into the same file/node (optionally "
+    "a point stored in between) and optionally once more under a second node of the file; every reloaded problem is compared attribute by "
     "attribute with the original. hdf5_cache: 2-10 cache_outputs/cache_jacobian operations over a pool of inputs (dense/sparse "
     "Jacobians, tolerance 0/1e-9, real or deliberately colliding 2-bucket input hash) interleaved with re-instantiations (file singleton kept or forgotten), compared with a model "
     "through len, get_all_entries and lookups. "
@@ -65,6 +68,7 @@ T_DEFAULT = (1e-4, 1e-2)  # default inequality / equality tolerances of an Optim
 KNOWN_TOL = "problem_tolerances_not_default"
 KNOWN_NODE = "problem_solution_at_nested_node"
 KNOWN_NAMES = "function_with_single_multichar_name"
+KNOWN_COMPLEX_INT = "complex_value_of_integer_variable_in_text_export"
 
 
 # =========================================================================== shared helpers
@@ -336,6 +340,7 @@ def design_space_specs(max_vars=4, with_options=True):
         spec.update({
             "node": st.sampled_from(["", "a/b"]), "pre": st.booleans(),
             "suffix": st.sampled_from([".h5", ".hdf5", ".csv", ".txt"]),
+            "complex": st.sampled_from([False, False, True]),  # DesignSpace.to_complex() before the exports (complex step)
         })
     return st.fixed_dictionaries(spec)
 
@@ -422,6 +427,15 @@ def case_design_space(p, ctx):
     try:
         ds = build_ds(resolved)
         compare_ds(ctx, ds, resolved, "design_space_build", "built design space (harness self-check)", same_num)
+        is_complex = bool(p.get("complex"))
+        if is_complex:
+            ds.to_complex()  # what optimizers / scenarios do for complex-step differentiation; the exports keep the real part
+        # to_complex() also casts the values of integer variables, which the text export does not convert back (C11-F4)
+        complex_integer = is_complex and any(r[2] == "integer" and r[5] is not None for r in resolved)
+        skip_text = False
+        if complex_integer:
+            ctx.cls("ds:complex_value_of_integer_variable")
+            skip_text = ctx.known(KNOWN_COMPLEX_INT)
         # ---- HDF5
         path = os.path.join(case_dir, "ds.h5")
         if p["pre"]:
@@ -436,15 +450,17 @@ def case_design_space(p, ctx):
         ctx.check(back == ds, "design_space_hdf", "from_hdf(to_hdf(ds)) != ds")
         # ---- CSV
         path = os.path.join(case_dir, "ds.csv")
-        ds.to_csv(path)
-        back = DesignSpace.from_csv(path)
-        compare_ds(ctx, back, resolved, "design_space_csv", "from_csv(to_csv)", close16)
+        if not skip_text:
+            ds.to_csv(path)
+            back = DesignSpace.from_csv(path)
+            compare_ds(ctx, back, resolved, "design_space_csv", "from_csv(to_csv)", close16)
         # ---- to_file / from_file
         path = os.path.join(case_dir, "file" + p["suffix"])
-        ds.to_file(path)
-        back = DesignSpace.from_file(path)
         is_hdf = p["suffix"] in (".h5", ".hdf5")
-        compare_ds(ctx, back, resolved, "design_space_file", f"from_file(to_file) with suffix {p['suffix']}", same_num if is_hdf else close16)
+        if is_hdf or not skip_text:
+            ds.to_file(path)
+            back = DesignSpace.from_file(path)
+            compare_ds(ctx, back, resolved, "design_space_file", f"from_file(to_file) with suffix {p['suffix']}", same_num if is_hdf else close16)
         # ---- classification
         types = {r[2] for r in resolved}
         has_inf = any(np.isinf(r[3]).any() or np.isinf(r[4]).any() for r in resolved)
@@ -462,6 +478,8 @@ def case_design_space(p, ctx):
             ctx.cls("ds:multi_character_name")
         if p["pre"]:
             ctx.cls("ds:appended_next_to_another_node")
+        if is_complex and any(r[5] is not None for r in resolved):
+            ctx.cls("ds:complex_current_value")
         if len(resolved) >= 2 and "integer" in types and has_inf and missing:
             ctx.nontriv(("design_space", p))
             ctx.cls("ds:nontrivial")
@@ -498,7 +516,12 @@ def problem_specs():
         "tol_ineq": st.sampled_from([0, 0, 0, 2, 3, 4]), "tol_eq": st.sampled_from([1, 1, 1, 2, 3, 4]),
         "diff": st.integers(0, len(DIFF) - 1), "step": st.sampled_from([1e-7, 1e-5, 1e-3]),
         "points": st.lists(point, min_size=1, max_size=5),
-        "solution": st.booleans(), "node": st.sampled_from(["", "a/b"]),
+        "solution": st.booleans(), "node": st.sampled_from(["", "a/b", "a/b"]),
+        # what is written into the same file/node before problem.to_hdf(append=True)
+        "pre": st.sampled_from(["none", "none", "database", "design_space", "design_space+database", "problem", "problem_append"]),
+        "extra_point": st.booleans(),   # a point stored between the first write and the final append
+        "append": st.booleans(),        # append flag of the only write when nothing is written before
+        "second_node": st.booleans(),   # the problem is appended a second time under another node of the same file
         "status": st.sampled_from([None, 0, 3]), "message": st.sampled_from([None, "done", "max iter reached"]),
     })
 
@@ -575,6 +598,19 @@ def build_problem(p):
     return problem, model
 
 
+def store_extra_point(p, problem, model) -> None:
+    """One more point (off the 0.5 grid of the drawn points) with a full record."""
+    n_float = p["n_float"]
+    x = np.array([0.25] * n_float + ([0.0] if p["with_int"] else []))
+    out = {problem.objective.name: 1.375}
+    for name, con in zip([c.name for c in problem.constraints], p["cons"]):
+        out[name] = np.array([0.0625] * con["dim"])
+    if p["observable"]:
+        out["obs_1"] = np.array([-0.75])
+    problem.database.store(x.copy(), {k: copy_value(v) for k, v in out.items()})
+    model.append({"x": x, "out": out})
+
+
 def fdict(fn):
     """The serialised description of an MDOFunction as plain values."""
     out = {}
@@ -607,6 +643,48 @@ def sol_equal(a, b) -> bool:
     return same_num(a, b)
 
 
+def compare_problem(p, ctx, problem, model, back, node):
+    """Reloaded problem against the written one, attribute by attribute."""
+    sub = "problem_functions"
+    tol = (TOLS[p["tol_ineq"]], TOLS[p["tol_eq"]])
+    compare_functions(ctx, problem.objective, back.objective, "objective")
+    for label, orig, new in (("constraints", list(problem.constraints), list(back.constraints)), ("observables", list(problem.observables), list(back.observables))):
+        ctx.check(sorted(f.name for f in orig) == sorted(f.name for f in new), sub,
+                  f"{label} reloaded with names {[f.name for f in new]}, written {[f.name for f in orig]}")
+        by_name = {f.name: f for f in new}  # the order of the functions is not part of the statement (reload sorts by name)
+        if [f.name for f in orig] != [f.name for f in new]:
+            ctx.cls("problem:function_order_changed_by_reload")
+        for a in orig:
+            compare_functions(ctx, a, by_name[a.name], label)
+    sub = "problem_description"
+    ctx.check(bool(back.minimize_objective) == bool(problem.minimize_objective), sub, f"minimize_objective reloaded as {back.minimize_objective}, written {problem.minimize_objective}")
+    ctx.check(str(getattr(back.differentiation_method, "value", back.differentiation_method)) == DIFF[p["diff"]], sub,
+              f"differentiation_method reloaded as {back.differentiation_method!r}, written {DIFF[p['diff']]!r}")
+    ctx.check(float(back.differentiation_step) == p["step"], sub, f"differentiation_step reloaded as {back.differentiation_step!r}, written {p['step']!r}")
+    ctx.check(bool(back.is_linear) == bool(problem.is_linear), sub, f"is_linear reloaded as {back.is_linear}, written {problem.is_linear}")
+    ctx.check(back.design_space == problem.design_space, "problem_design_space", "design space of the reloaded problem differs from the original")
+    compare_db(ctx, back.database, model, "problem_database", "database of the reloaded problem")
+    if tol != T_DEFAULT and ctx.known(KNOWN_TOL):
+        ctx.cls("problem:tolerance_comparison_skipped")
+    else:
+        got = (float(back.tolerances.inequality), float(back.tolerances.equality))
+        ctx.check(got == tol, "problem_tolerances", f"tolerances (inequality, equality) reloaded as {got}, written {tol}")
+    sub = "problem_solution"
+    if not p["solution"]:
+        ctx.check(back.solution is None, sub, f"a problem without solution reloads with solution {back.solution!r}")
+    else:
+        ctx.check(back.solution is not None, sub, "the solution is missing after reload")
+        orig, new = problem.solution.to_dict(), back.solution.to_dict()
+        skip = set()
+        if node and ctx.known(KNOWN_NODE):
+            skip = {"x_0_as_dict", "x_opt_as_dict"}
+            ctx.cls("problem:as_dict_fields_comparison_skipped")
+        for key in sorted(set(orig) | set(new)):
+            if key in skip:
+                continue
+            ctx.check(sol_equal(orig.get(key), new.get(key)), sub, f"solution field {key} reloaded as {new.get(key, 'absent')!r}, written {orig.get(key, 'absent')!r}", node=node)
+
+
 def case_problem(p, ctx):
     from gemseo.algos.optimization_problem import OptimizationProblem
 
@@ -615,46 +693,38 @@ def case_problem(p, ctx):
         problem, model = build_problem(p)
         node = p["node"]
         path = os.path.join(case_dir, "problem.h5")
-        problem.to_hdf(path, hdf_node_path=node)
-        back = OptimizationProblem.from_hdf(path, hdf_node_path=node)
-        sub = "problem_functions"
-        compare_functions(ctx, problem.objective, back.objective, "objective")
-        for label, orig, new in (("constraints", list(problem.constraints), list(back.constraints)), ("observables", list(problem.observables), list(back.observables))):
-            ctx.check(sorted(f.name for f in orig) == sorted(f.name for f in new), sub,
-                      f"{label} reloaded with names {[f.name for f in new]}, written {[f.name for f in orig]}")
-            by_name = {f.name: f for f in new}  # the order of the functions is not part of the statement (reload sorts by name)
-            if [f.name for f in orig] != [f.name for f in new]:
-                ctx.cls("problem:function_order_changed_by_reload")
-            for a in orig:
-                compare_functions(ctx, a, by_name[a.name], label)
-        sub = "problem_description"
-        ctx.check(bool(back.minimize_objective) == bool(problem.minimize_objective), sub, f"minimize_objective reloaded as {back.minimize_objective}, written {problem.minimize_objective}")
-        ctx.check(str(getattr(back.differentiation_method, "value", back.differentiation_method)) == DIFF[p["diff"]], sub,
-                  f"differentiation_method reloaded as {back.differentiation_method!r}, written {DIFF[p['diff']]!r}")
-        ctx.check(float(back.differentiation_step) == p["step"], sub, f"differentiation_step reloaded as {back.differentiation_step!r}, written {p['step']!r}")
-        ctx.check(bool(back.is_linear) == bool(problem.is_linear), sub, f"is_linear reloaded as {back.is_linear}, written {problem.is_linear}")
-        ctx.check(back.design_space == problem.design_space, "problem_design_space", "design space of the reloaded problem differs from the original")
-        compare_db(ctx, back.database, model, "problem_database", "database of the reloaded problem")
+        pre = p.get("pre", "none")
+        # ---- objects of the problem written into the same file/node first, then the problem itself (append=True)
+        if pre == "none":
+            problem.to_hdf(path, append=bool(p.get("append")), hdf_node_path=node)
+        else:
+            if pre == "database":
+                problem.database.to_hdf(path, hdf_node_path=node)
+            elif pre == "design_space":
+                problem.design_space.to_hdf(path, hdf_node_path=node)
+            elif pre == "design_space+database":
+                problem.design_space.to_hdf(path, hdf_node_path=node)
+                problem.database.to_hdf(path, append=True, hdf_node_path=node)
+            elif pre == "problem":
+                problem.to_hdf(path, hdf_node_path=node)
+            else:  # "problem_append": the first write already uses append=True on a file that does not exist
+                problem.to_hdf(path, append=True, hdf_node_path=node)
+            if p.get("extra_point"):
+                store_extra_point(p, problem, model)
+            problem.to_hdf(path, append=True, hdf_node_path=node)
+        nodes = [node]
+        if p.get("second_node"):
+            problem.to_hdf(path, append=True, hdf_node_path="zz/y")
+            nodes.append("zz/y")
+        for where in nodes:
+            back = OptimizationProblem.from_hdf(path, hdf_node_path=where)
+            compare_problem(p, ctx, problem, model, back, where)
         tol = (TOLS[p["tol_ineq"]], TOLS[p["tol_eq"]])
-        if tol != T_DEFAULT and ctx.known(KNOWN_TOL):
-            ctx.cls("problem:tolerance_comparison_skipped")
-        else:
-            got = (float(back.tolerances.inequality), float(back.tolerances.equality))
-            ctx.check(got == tol, "problem_tolerances", f"tolerances (inequality, equality) reloaded as {got}, written {tol}")
-        sub = "problem_solution"
-        if not p["solution"]:
-            ctx.check(back.solution is None, sub, f"a problem without solution reloads with solution {back.solution!r}")
-        else:
-            ctx.check(back.solution is not None, sub, "the solution is missing after reload")
-            orig, new = problem.solution.to_dict(), back.solution.to_dict()
-            skip = set()
-            if node and ctx.known(KNOWN_NODE):
-                skip = {"x_0_as_dict", "x_opt_as_dict"}
-                ctx.cls("problem:as_dict_fields_comparison_skipped")
-            for key in sorted(set(orig) | set(new)):
-                if key in skip:
-                    continue
-                ctx.check(sol_equal(orig.get(key), new.get(key)), sub, f"solution field {key} reloaded as {new.get(key, 'absent')!r}, written {orig.get(key, 'absent')!r}", node=node)
+        ctx.cls("problem:written_after=" + pre)
+        if p.get("second_node"):
+            ctx.cls("problem:two_nodes_in_one_file")
+        if pre != "none" and p.get("extra_point"):
+            ctx.cls("problem:point_stored_between_the_writes")
         ctx.cls("problem:node=" + (node or "root"), "problem:with_solution" if p["solution"] else "problem:without_solution")
         if not p["minimize"]:
             ctx.cls("problem:maximisation")
